@@ -155,6 +155,12 @@ func (e *env) flush() {
 		}
 		v0, a0, found := e.evalCase(c.name, c.script)
 		if v0 == nil && a0 {
+			if v != nil && (strings.Contains(v.what, "did not return") || strings.Contains(v.what, "did not complete") || strings.Contains(v.detail, "deadline") || strings.Contains(v.detail, "err 4") || strings.Contains(v.detail, "err 8")) {
+				// a verdict that rests on elapsed time (watchdog, per-operation deadline, pool slot not obtained in time)
+				// has to show again on an immediate re-run; otherwise the machine was merely slow
+				e.run.Count("timing-dependent verdict not reproduced: " + v.what)
+				continue
+			}
 			e.run.Report(hx.Finding{Kind: "disagreement", What: "case failed in a batch but not when re-run", Case: c.name, Script: c.script})
 			continue
 		}
